@@ -1,18 +1,46 @@
-(** Property C13 — statements only. Each theorem is closed by [exact] of a lemma
-    proved elsewhere and followed by [Print Assumptions]. *)
-From CR Require Import Base Atomic Machine LinksFacts HeapFacts TraceFacts Local.
+(** Property C13 — forgetting unadopt. The full statement is FALSE of the code
+    (known finding D4, witness below). Proved part: stale records are harmless
+    as long as no reachability trace visits an object that carries one. *)
+From Coq Require Import Permutation.
+From CR Require Import Base Atomic Machine LinksFacts HeapFacts TraceFacts TraceTotal Local StackBound
+  Termination Perm StdRc StdRefine Tokens InvDef InvLemmas ActBase ActHandles ActAdopt ActMove ActConsume
+  StepFrames StepPanic Purge GroupOps DropDec Group DropLast StepInv RunInv Consequences Common.
 Local Open Scope N_scope.
 
-Theorem C13_trace_is_closure_partial :
-  forall h a own pops visits,
-  cycle_refs h a = Ok (own, pops, visits) ->
-  exists R,
-    NoDup R /\ (forall y, In y R <-> reach h a y) /\
-    (forall y, own_get own y = sumN (map (fun x => cntF (tbl_of h x) y) R)) /\
-    (forall y, In y (map fst own) <-> exists x, In x R /\ linked h x y) /\
-    NoDup (map fst own) /\
-    visits = N.of_nat (length R) /\
-    pops = (1 + sumN (map (fun x => N.of_nat (length (fwd_targets (tbl_of h x)))) R))%N.
-Proof. exact cycle_refs_spec. Qed.
-Print Assumptions C13_trace_is_closure_partial.
+(** the drop of a handle needs discipline only on the objects its own trace
+    visits ([traced_disc]); stale or excess records anywhere else in the heap
+    do not matter: no fault, invariant preserved, reachable objects alive *)
+Theorem C13_stale_records_off_the_trace_are_harmless :
+  forall pri s o k,
+  Inv s (FDropStrong o :: k) -> traced_disc (heap_of s) o ->
+  exists s1 push, drop_strong pri s o = Ok (s1, push) /\ Inv s1 (push ++ k).
+Proof. exact drop_strong_inv. Qed.
+Print Assumptions C13_stale_records_off_the_trace_are_harmless.
 
+Theorem C13_stepwise :
+  forall pri c, Inv_cfg c -> step_hyp c -> step_goal c (step pri c).
+Proof. exact step_inv. Qed.
+Print Assumptions C13_stepwise.
+
+(** a dying adoptee purges the stale records its former adopters keep *)
+Theorem C13_dying_adoptee_purges_stale_records :
+  forall h o b t h3, TblInv h -> Purge.live_has_table h -> no_foreign_loop h o ->
+  getb h o = Ok b -> links b = Some t -> release_links h o = Ok h3 ->
+  TblInv h3 /\ (forall a kd, lget h3 a (o, kd) = 0) /\ (forall l, lget h3 o l = 0).
+Proof. exact release_links_TblInv. Qed.
+Print Assumptions C13_dying_adoptee_purges_stale_records.
+
+(** KNOWN FINDING D4: x and y adopt each other; x's handle to y is taken out
+    WITHOUT unadopt and kept; the other handles are dropped: the trace counts
+    the stale record as a group-internal handle, both objects are destroyed,
+    and using the kept handle reads a released allocation. *)
+Definition d4_history : list (op * list oid) := map (fun a => (OAct a, @nil oid))
+  [ANew 0; ANew 1; AClone (HReg 1) 7; AAdopt (HReg 0) (HReg 7); AStore 7 (OReg 0) 0;
+   AClone (HReg 0) 7; AAdopt (HReg 1) (HReg 7); AStore 7 (OReg 1) 0; ATake (OReg 0) 0 2;
+   ADrop 1; ADrop 0; AStrongCount (HReg 2)].
+
+Theorem C13_refuted :
+  snd (run_history ex_fuel init_state d4_history) =
+    repeat (ODone RUnit) 11 ++ [OHalt (HFault FkFreed 1%nat)].
+Proof. vm_compute. reflexivity. Qed.
+Print Assumptions C13_refuted.
